@@ -621,8 +621,28 @@ def fmt_outcome(o):
 # case generators
 # ------------------------------------------------------------------------------------------------------------
 
+def maximal_value(rng, e):
+    """A value of maximal serialized length: every variable array at capacity, the widest union option."""
+    k = e[0]
+    if k in "uifb":
+        return G.gen_value(rng, e, oob=False)
+    if k == "v":
+        return None
+    if k in "al":
+        return [maximal_value(rng, e[1]) for _ in range(e[2])]
+    if k == "s":
+        return [maximal_value(rng, f) for f in e[1]]
+    if k == "n":
+        best = max(range(len(e[1])), key=lambda i: R._lens(e[1][i], {})[1])
+        return (best, maximal_value(rng, e[1][best]))
+    if k == "d":
+        return maximal_value(rng, e[2])
+    raise ValueError(e)
+
+
 def value_cases(rng, gt, n, p_invalid=0.04):
-    out = [G.zero_value(gt.expr)]
+    """zero value, two values of MAXIMUM serialized length (in-range numbers, so that Python takes part), then random ones."""
+    out = [G.zero_value(gt.expr), maximal_value(rng, gt.expr), maximal_value(rng, gt.expr)]
     for i in range(n):
         # every other value stays inside the DSDL ranges so that the Python target (whose setters refuse anything else) takes part
         out.append(G.gen_value(rng, gt.expr, oob=(i % 2 == 0), p_invalid=p_invalid if i % 3 == 0 else 0.0))
